@@ -60,6 +60,10 @@ type World struct {
 	letters int // alternative branches handed out so far
 	honest  *Blk
 	target  *big.Int
+
+	// FirstBlockTime, when set, is the timestamp of block 1 of every branch
+	// leaving genesis (default: one hour before now).
+	FirstBlockTime time.Time
 }
 
 // Params returns a private copy of the regression-test parameters (cheap
@@ -290,6 +294,9 @@ func (w *World) mineOn(parent *Blk, id string) *Blk {
 // current and growth never reaches the two-hours-ahead limit.
 func (w *World) nextTime(parent *Blk) time.Time {
 	if parent.Height == 0 {
+		if !w.FirstBlockTime.IsZero() {
+			return time.Unix(w.FirstBlockTime.Unix(), 0)
+		}
 		return time.Unix(time.Now().Unix()-3600, 0)
 	}
 	return parent.Msg.Header.Timestamp.Add(time.Second)
